@@ -76,13 +76,69 @@ def harness(sym):
         sym.note("trace", trace)
 
 
+PCODE_TIMED = "Mark: A\nPause: 0.5s\nMark: B\nWait: 60s\n"
+
+
+def harness_timed(sym):
+    """A timed Pause issued by the method, undone early by the user (or expiring by itself): values captured by it are applied
+    once, by the Unpause that ends it, and never again."""
+    n = 18
+    with engine_rig(sym, PCODE_TIMED) as rig:
+        e = rig.engine
+        out1 = e.tags["Out1"]
+        u = sym.int("unpause_tick", 1, n)          # the user's Unpause request (refused unless the run is paused at that moment)
+        v0 = sym.int("v0", 1, 10 ** 6)
+        v1 = sym.int("v1", 1, 10 ** 6)
+        sym.assume(v0 != v1)
+        rig.user("Start")
+        ghost = None
+        expected = None                            # value Out1 must keep while the run is Running and nobody sets it
+        resumed_at = None
+        trace = []
+        for i in range(n):
+            st_before = rig.system_state
+            if i == 1:
+                out1.set_value(v0, rig.now)        # the process sets the output before the pause
+                expected = v0
+            if resumed_at is not None and i == resumed_at + 1 and st_before == "Running":
+                out1.set_value(v1, rig.now)        # ... and to another value after the pause was undone
+                expected = v1
+            before = out1.get_value()
+            accepted = None
+            if i == u:
+                accepted = rig.user("Unpause") is None
+            rig.tick(0.1)
+            sym.check(not rig.tick_errors, "tick-raised", lambda: f"Engine.tick raised {rig.tick_errors[:1]}")
+            st = rig.system_state
+            trace.append((i, st))
+            if st == "Paused" and st_before != "Paused":
+                ghost = before
+            if st_before == "Paused" and st == "Running":
+                resumed_at = i
+                sym.check(out1.get_value() == ghost, "timed-pause|unpause-restored-other-values",
+                          lambda: f"timed Pause ended at tick {i} ({'user Unpause' if accepted else 'expiry'}): Out1 = {out1.get_value()!r}, before the pause {ghost!r}")
+                expected = ghost
+            elif st_before == "Running" and st == "Running" and expected is not None:
+                sym.check(out1.get_value() == expected, "timed-pause|stale-values-applied-while-running",
+                          lambda: f"user Unpause at tick {u}: at tick {i} (Running, nobody set the output) Out1 = {out1.get_value()!r}, expected {expected!r}; states {trace}")
+        sym.reach()
+
+
 def _shards(tier):
     if tier == "quick":
         return [{"n": 6, "events": ["Start", a], "alphabet": EVENTS_Q} for a in EVENTS_Q]
     return [{"n": 7, "events": ["Start", a, b], "alphabet": EVENTS_T} for a in EVENTS_T for b in EVENTS_T]
 
 
-OBLIGATIONS = [Obligation(
+_TIMED = Obligation(
+    name="timed_pause_undone_early", kind="crosshair", harness=harness_timed, shards=lambda tier: [{}], cpu_budget={"quick": 200.0, "thorough": 600.0},
+    encoded=["openpectus.engine.internal_commands_impl:PauseEngineCommand", "openpectus.engine.internal_commands_impl:UnpauseEngineCommand",
+             "openpectus.engine.engine:Engine._apply_safe_state", "openpectus.engine.engine:Engine._apply_state"],
+    symbolic="tick of the user's Unpause (1..18: before, during or after the method's 'Pause: 0.5s'), the output values set before the pause and after it was undone (distinct ints)",
+    bounds={"quick": "one method with 'Pause: 0.5s', 18 ticks", "thorough": "same"},
+    assumptions=["the output tag is changed by the harness only (stands for a UOD command)", "tick interval fixed; fake hardware; log statements removed at import"])
+
+OBLIGATIONS = [_TIMED, Obligation(
     name="unpause_restores", kind="crosshair", harness=harness, shards=_shards,
     cpu_budget={"quick": 400.0, "thorough": 3000.0},
     encoded=["openpectus.engine.internal_commands_impl:PauseEngineCommand", "openpectus.engine.internal_commands_impl:UnpauseEngineCommand",
@@ -99,6 +155,6 @@ OBLIGATIONS = [Obligation(
 MANIFEST = {
     "level": "model_checking",
     "text": "Bounded exhaustive symbolic execution (CrossHair/z3) of the real engine over all histories of runs, pauses (user and error), unpauses, stops and restarts of the bounded length, with a fresh symbolic output value before every pause: the value present after each effective Unpause is compared by the solver with the value immediately before the most recent pause of the same run.",
-    "note": "Trusted: CrossHair/z3; histories beyond the bound outside the claim; timed/method-issued pauses are covered by C06/C12, not here.",
+    "note": "Trusted: CrossHair/z3; histories beyond the bound outside the claim; a timed pause issued by the method and undone early is covered by obligation timed_pause_undone_early.",
     "technique": "symbolic execution of the real engine (CrossHair + z3), bounded exhaustive over event histories, symbolic output values, ghost-variable oracle, counterexample replay",
 }
